@@ -19,6 +19,12 @@ RULE = ('seeded histories of three kinds - client first (application close() '
         'Disconnected, socket closed.  Non-trivial = a Close frame crossed '
         'the wire in each direction; distinct = distinct (kind, close event, '
         'layout, in-closing ops) signatures')
+RULE += (' '
+         'Also: close_timeout in {30, 0, None} with late server answers, '
+         'every valid close code (incl. 1012, 1013, 3999, 4000), a failed '
+         'write of the Close, an earlier abandoned connection whose '
+         'generator the consumer lets go of in the middle of this handshake, '
+         'and a `pair` family (two connections interleaved).')
 SHRINK_LISTS = [('pre',), ('mid',), ('in_closing',), ('cuts',)]
 EXPECTED_PROBES = ['client_first', 'server_first', 'crossing',
                    'close_before_ready', 'second_close', 'send_refused',
